@@ -586,9 +586,20 @@ type c19CookieCase struct {
 	Mask   int  `json:"mask"`
 	DelayS int  `json:"delayS"`          // virtual seconds between the ServerHello and the presentation (the cookie key rotates every 120 s)
 	Forge  bool `json:"forge,omitempty"` // harness-driven base: build even an unaltered acknowledgement with the forging helper (self-test of the helper)
+	Fam    int  `json:"fam,omitempty"`   // address family of every address in the case: 0 IPv4-mapped 16-byte, 1 IPv4 4-byte, 2 IPv6
 }
 
 var c19FromAddrs = []*net.UDPAddr{vCliAddr, c19AddrSameIP, c19AddrSamePort, vEvilAddr}
+
+func init() {
+	vFamilyHooks = append(vFamilyHooks, func() {
+		c19AddrSamePort = simnet.Addr("10.0.0.77", 40000)
+		c19AddrSameIP = simnet.Addr("10.0.0.2", 40007)
+		c19AddrLiveness = simnet.Addr("10.0.0.9", 41000)
+		c19AddrOtherXchg = simnet.Addr("10.0.0.44", 40444)
+		c19FromAddrs = []*net.UDPAddr{vCliAddr, c19AddrSameIP, c19AddrSamePort, vEvilAddr}
+	})
+}
 
 type c19CookieOut struct {
 	mach         string
@@ -804,6 +815,8 @@ func c19CookieRun(t *testing.T) func(c c19CookieCase, v *vlib.Verdict) {
 			return
 		}
 		var out c19CookieOut
+		defer vSetFamily(vSetFamily(c.Fam))
+		v.Label("addresses:" + vFamilyNames[c.Fam%3])
 		res := vlib.Bubble(t, 60*time.Second, func() { out = c19Cookie(c) })
 		if !c19BubbleVerdict(res, v) {
 			return
@@ -880,6 +893,12 @@ func TestVerifC19CookieSweep(t *testing.T) {
 							return
 						}
 					}
+					// the same matrix with 4-byte IPv4 and with IPv6 addresses (the cookie is bound to the raw address bytes)
+					for fam := 1; fam <= 2; fam++ {
+						if !emit(c19CookieCase{Real: real, From: from, Key: key, Cookie: cookie, Fam: fam}) {
+							return
+						}
+					}
 				}
 			}
 		}
@@ -906,7 +925,7 @@ func TestVerifC19CookieSweep(t *testing.T) {
 			}
 		}
 	}
-	rec.Extra("enumerated", "base {real client, harness-driven} x source {A, other port, other IP, both} x key {K, field replaced, other key with consistent MAC} x cookie {intact, of other exchange x3} x delay {0,45,110 | 125,170,245,299 s}; every cookie byte x masks (quick {0x01,0x80}; thorough 8 single bits + 0xff)")
+	rec.Extra("enumerated", "base {real client, harness-driven} x source {A, other port, other IP, both} x key {K, field replaced, other key with consistent MAC} x cookie {intact, of other exchange x3} x (delay {0,45,110 | 125,170,245,299 s} with IPv4-mapped addresses + delay 0 with 4-byte IPv4 and with IPv6 addresses); every cookie byte x masks (quick {0x01,0x80}; thorough 8 single bits + 0xff)")
 }
 
 func TestVerifC19CookieRandom(t *testing.T) {
@@ -914,6 +933,7 @@ func TestVerifC19CookieRandom(t *testing.T) {
 	vlib.Drive(t, vlib.Spec[c19CookieCase]{ID: "C19", Quick: 1500, Run: c19CookieRun(t), Gen: func(t *rapid.T) c19CookieCase {
 		c := c19CookieCase{Real: rapid.Bool().Draw(t, "real")}
 		c.From = rapid.SampledFrom([]int{0, 0, 1, 2, 3}).Draw(t, "from")
+		c.Fam = rapid.SampledFrom([]int{0, 0, 1, 2, 2}).Draw(t, "fam")
 		if c.Real {
 			c.Key = rapid.SampledFrom([]int{0, 0, 1}).Draw(t, "key")
 			c.Cookie = rapid.SampledFrom([]int{0, 0, 1, 1, 2, 3}).Draw(t, "cookie")
